@@ -46,8 +46,18 @@ def run(pid, tier, seed, replay):
     mode = {"C10": "iso", "C11": "time"}[pid]
     n = {"C10": (400, 8000), "C11": (40, 400)}[pid][0 if tier == "quick" else 1]
     out = os.path.join(wd, mode + ".ndjson")
-    vlib.run([drv, mode, str(n), str(seed), out], timeout=7000)
+    p0 = vlib.run([drv, mode, str(n), str(seed), out], timeout=7000, check=False)
     runs = [(mode, out)]
+    if p0.returncode != 0:
+        if "fatal error:" in p0.stdout or "panic:" in p0.stdout:
+            # the interpreter brought the host process down while executions ran side by side: isolation (C10) and
+            # promptness (C11) are both about executions that come back
+            rep.reject("the driver process died inside the interpreter (%s)" % mode, [],
+                       {"property": pid, "labels": ["host-process-crashed"], "mode": mode, "seed": seed, "n": n,
+                        "how_to_rerun": "interpdrv %s %d %d out.ndjson" % (mode, n, seed), "output": p0.stdout[-3000:]})
+            runs = []
+        else:
+            raise vlib.CannotRun("interpdrv failed (%s):\n%s" % (mode, p0.stdout[-3000:]))
     if tier == "thorough" and pid == "C10":
         rdrv = vlib.build_driver("interpdrv", wd, race=True)
         o2 = os.path.join(wd, "iso_race.ndjson")
